@@ -111,6 +111,21 @@ def run_scn(sc):
     finally:
         cleanup(root)
 
+REG_SRC = 'f("x")\ng({ 1 })\n'
+def regression_cases():
+    out = []
+    root = scratch("c15reg")
+    try:
+        open(os.path.join(root, "stylua.toml"), "w").write("no_call_parentheses = true\n")
+        open(os.path.join(root, ".editorconfig"), "w").write("root = true\n")
+        for flag, want in (("Always", 'f("x")\ng({ 1 })\n'), ("NoSingleTable", 'f("x")\ng { 1 }\n'), (None, 'f "x"\ng { 1 }\n')):
+            code, o, e = stylua((["--call-parentheses", flag] if flag else []) + ["-"], root, stdin=REG_SRC.encode())
+            if code != 0 or o.decode("utf-8", "replace") != want:
+                out.append("BAD override-not-applied:call_parentheses=%s-over-no_call_parentheses reg-%s" % (flag, flag))
+    finally:
+        cleanup(root)
+    return out
+
 def run(res):
     proof = proof_stage(res, "C15", extra_obligations=1)
     build_ml(); build_cli()
@@ -124,6 +139,10 @@ def run(res):
         if l.startswith("SUMMARY"): tot = {k: int(v) for k, v in parse_kv(l).items()}
         elif l.startswith("BAD"): bads.append(l)
         elif l.startswith("SAMPLE"): samples.append(l[7:])
+    # fixed regression cases: a command line option against EVERY way a configuration file can set the same thing.  The deprecated
+    # `no_call_parentheses = true` of a stylua.toml must give way to --call-parentheses (repair D46)
+    reg = regression_cases()
+    bads += reg
     tie_ok = r.returncode == 0 and not bads and tot.get("scenarios") == n
     if proof["ok"] and tie_ok: res.coverage["discharged"] = proof["discharged"] + 1
     styles = {}
@@ -146,6 +165,9 @@ def run(res):
                 w = l.split(); key = w[1].split(":")[0]
                 if key in seen or len(seen) >= 4: continue
                 seen.add(key)
+                if w[2].startswith("reg-"):
+                    res.violation(dict(kind="input", check=w[1], cli=dict(scenario=dict(id=w[2], files={"stylua.toml": "no_call_parentheses = true\n"}, stdin=REG_SRC, args=["--call-parentheses", w[2][4:], "-"])), expected="command line format options override whatever the configuration file set"))
+                    continue
                 res.violation(dict(kind="input", check=w[1], cli=dict(scenario=by.get(w[2])), expected="the configuration CfgSearch.spec and the precedence give (C15 theorems)"))
         else:
             res.violation(dict(kind="obligation", obligation=dict(theorem=proof.get("broken_at", "C15 correspondence"), log=proof["log"][-2000:] + r.stderr[-500:])), no_input=True)
@@ -153,6 +175,8 @@ def run(res):
 
 def replay(payload):
     build_ml(); build_cli()
+    if str(payload["cli"]["scenario"].get("id", "")).startswith("reg-"):
+        bad = regression_cases(); print("\n".join(bad) or "regression cases pass"); return 1 if bad else 0
     recs = run_scn(payload["cli"]["scenario"])
     r = subprocess.run([driver("drv_c15")], input="\n".join(recs) + "\n", stdout=subprocess.PIPE, text=True)
     print("\n".join(recs)); print(r.stdout)
